@@ -71,9 +71,14 @@ def eval_login_middleware(prog, perm_fn):
     it.models[("HeaderValue", "to_str")] = lambda interp, recv, args: Ok(header_tok)
     used = {}
 
+    lookup_err = z3.Bool("session_lookup_fails")
+
     def get_user_session(interp, args):
         tok = args[1]
         used["tok"] = tok
+        # the lookup itself can fail (token not in the local cache and the leader cannot be asked): no session is known then
+        if interp.branch(lookup_err):
+            return Err(Uninterp("session-lookup-error", []))
         if interp.branch(valid_session(rseval.to_str(tok))):
             return Ok(Some(Struct("UserSession", {"roles": Uninterp("session_roles", [])})))
         return Ok(NONE)
@@ -102,7 +107,7 @@ def eval_login_middleware(prog, perm_fn):
             if name == "forward":
                 fwd.append(z3.And(*epc) if epc else z3.BoolVal(True))
     forward = z3.Or(*fwd) if fwd else z3.BoolVal(False)
-    sy = dict(path=path, method=method, cookie_tok=cookie_tok, header_tok=header_tok, has_cookie=has_cookie, has_header=has_header, perm=perm)
+    sy = dict(path=path, method=method, cookie_tok=cookie_tok, header_tok=header_tok, has_cookie=has_cookie, has_header=has_header, perm=perm, lookup_err=lookup_err)
     return forward, sy, sorted(it.opaque_seen), len(paths), it.queries
 
 
@@ -298,7 +303,7 @@ def run(tier, seed):
     # ---- S17.5 middleware decision
     timer = [0.0, 0]
     ob = {"engine": "smt", "harness": "s17_5_middleware_decision", "encodes": ["CheckLoginMiddleware::call (whole body, lenient evaluation)"], "encodes_files": FILES,
-          "bound": "every path/method string, every presence/value of the cookie and header token, every session-lookup answer, either permission answer",
+          "bound": "every path/method string, every presence/value of the cookie and header token, every session-lookup answer (session, no session, lookup error), either permission answer",
           "queries": 0, "solver_s": 0.0, "distinct": 0}
     try:
         forward, sy, opaque, npaths, q = eval_login_middleware(prog, None)
@@ -306,7 +311,7 @@ def run(tier, seed):
         s = z3.Solver()
         s.set("timeout", 60000)
         tok = z3.If(sy["has_cookie"], sy["cookie_tok"], z3.If(sy["has_header"], sy["header_tok"], z3.StringVal("")))
-        ok = z3.And(tok != z3.StringVal(""), valid_session(tok), sy["perm"])
+        ok = z3.And(tok != z3.StringVal(""), z3.Not(sy["lookup_err"]), valid_session(tok), sy["perm"])
         s.add(forward, chk, z3.Not(ok))
         r = solve(s, timer)
         if r == z3.sat:
